@@ -22,7 +22,10 @@
 use std::cmp::min;
 use std::collections::{BTreeMap, BTreeSet};
 use std::default::Default;
+#[cfg(not(yamaquasi_verif))]
 use std::fs;
+#[cfg(yamaquasi_verif)]
+use simsync::fs;
 use std::io::Write;
 use std::path::{Path, PathBuf};
 use std::time::Instant;
